@@ -15,7 +15,7 @@ THEOREMS = [(M, "NQ.C18." + n) for n in [
     "mixed_key_not_globally_fifo",
     "structured_roundtrip", "recvWires_eq_gotOf", "sent_results", "compile_noCb", "socket_exactly_once_fifo",
     "socket_queue_path", "bsend_progress", "bsend_abort", "broadcast_delivers_each_once",
-    "broadcast_recv_nonblocking_one_round"]]
+    "broadcast_recv_nonblocking_one_round", "send_snapshots_value"]]
 TRANSLATORS = []
 LEVEL_TEXT = (
     "Lean theorems about a transition system of _SocketHub at shared-access granularity (one step = one source "
@@ -62,6 +62,9 @@ ASSUMPTIONS = [
     "atomicity of single set/dict/list operations under the GIL and of threading.Lock",
     "OS preemption inside C code, timeouts, sleep and GC-driven __del__ / dead WeakMethod are not modelled",
     "one thread per endpoint; a socket key is operated by its owner thread only",
+    "value-snapshot semantics: in the model a send carries values (send_snapshots_value); that the real sockets take "
+    "the snapshot at send time is checked by the value_snapshot_histories stream (one StructuredMessage object reused "
+    "and mutated by the sender, scribbling receiver); plain `send` only accepts immutable str",
     "runs in one process are separated by reset_socket_hub(); the harness asserts after every reset that the hub the "
     "sockets use (ThreadSocket._SOCKET_HUB) is empty, and judges two-run histories by the oracle on run 2 alone",
     "message payloads are abstract identities in the model; the harness maps id 0 to the empty string (falsy payload), "
@@ -167,6 +170,16 @@ def run(ctx):
     except H.Stuck as e:
         res.failures.append({"what": "two-run history could not be driven on the real hub: %s" % e, "kf": None,
                              "input": "two_run_histories"})
+    # ---- value-snapshot semantics: one StructuredMessage object reused / mutated by the sender, scribbling receiver
+    try:
+        n_hist, snap_fails = H.value_snapshot_histories(rng, 40 if ctx.thorough else 8)
+        res.evaluations += n_hist
+        res.count("value-snapshot-histories", n_hist)
+        for f in snap_fails:
+            res.failures.append({"what": f["what"], "kf": None, "input": f["input"]})
+    except Exception as e:  # noqa
+        res.failures.append({"what": "value-snapshot history crashed: %r" % (e,), "kf": None,
+                             "input": "value_snapshot_histories"})
     from vlib import common
     sm = H._new_summary()
     drv = common.Driver()
